@@ -1,0 +1,21 @@
+#pragma once
+
+// Observation-only hooks used by the external verification machinery.
+// Compiled in only with -DPSTLAB_ORATIO_VERIF; without it this header is empty.
+#ifdef PSTLAB_ORATIO_VERIF
+#include "smt_export.h"
+#include "lit.h"
+#include <vector>
+
+namespace smt
+{
+  class sat_core;
+
+  namespace verif
+  {
+    // called at the very beginning of sat_core::record with the clause being recorded..
+    typedef void (*record_hook)(const sat_core &, const std::vector<lit> &);
+    SMT_EXPORT extern record_hook on_record;
+  } // namespace verif
+} // namespace smt
+#endif
